@@ -9,6 +9,12 @@ namespace Cv.C17
 theorem dist2S_none (a b : ℝ) : dist2S (none : Option ℝ) a b = (a - b) * (a - b) := rfl
 theorem dist2SGrad_none (a b : ℝ) : dist2SGrad (none : Option ℝ) a b = 2.0 * (a - b) := rfl
 
+theorem lit05 : (0.5 : ℝ) = 1 / 2 := by norm_num
+theorem lit10 : (1.0 : ℝ) = 1 := by norm_num
+theorem lit20 : (2.0 : ℝ) = 2 := by norm_num
+theorem lit00 : (0.0 : ℝ) = 0 := by norm_num
+theorem lit025 : (0.25 : ℝ) = 1 / 4 := by norm_num
+
 /-- closed form of one update in the frictionless, unbounded, non-periodic case with time-step factor 1 -/
 theorem extIntegrate_plain (p : ExtParams ℝ) (hl : p.langevin = false) (hlo : p.reflLower = none)
     (hup : p.reflUpper = none) (hper : p.per = none) (ht : p.tsf = 1)
@@ -23,10 +29,190 @@ theorem extIntegrate_plain (p : ExtParams ℝ) (hl : p.langevin = false) (hlo : 
     (extIntegrate p s x fb fa rnd).ep = 1 / 2 * p.k * (s.xExt - x) ^ 2 := by
   unfold extIntegrate
   simp only [hl, hlo, hup, hper, ht, dist2S_none, dist2SGrad_none, Option.bind_none, Int.cast_one]
-  have e05 : (0.5 : ℝ) = 1 / 2 := by norm_num
-  have e20 : (2.0 : ℝ) = 2 := by norm_num
-  have e10 : (-1.0 : ℝ) = -1 := by norm_num
-  simp only [e05, e20, e10, Bool.false_eq_true, if_false]
+  simp only [lit05, lit20, lit10, Bool.false_eq_true, if_false]
   refine ⟨trivial, trivial, ?_, ?_, ?_, ?_⟩ <;> ring
+
+/-- the shadow-energy identity of the integrator, as a rational identity -/
+theorem shadow_algebra {X V x fb k m h V1 X1 : ℝ} (hm : m ≠ 0) (hk : k ≠ 0)
+    (hV1 : V1 = V + h * (fb - k * (X - x)) / m) (hX1 : X1 = X + h * V1) :
+    1 / 2 * m * (V1 + 1 / 2 * h * (fb - k * (X1 - x)) / m) ^ 2 + 1 / 2 * k * (X1 - x) ^ 2 - fb * (X1 - x)
+        - h * h * k * k / (8 * m) * (X1 - x - fb / k) ^ 2 =
+    1 / 2 * m * (V + 1 / 2 * h * (fb - k * (X - x)) / m) ^ 2 + 1 / 2 * k * (X - x) ^ 2 - fb * (X - x)
+        - h * h * k * k / (8 * m) * (X - x - fb / k) ^ 2 := by
+  subst hX1
+  subst hV1
+  field_simp
+  ring
+
+/-! ## the pieces of `extIntegrate`, named (generic, so that they unfold to the very same terms) -/
+
+section generic
+variable {α : Type} [Sc α]
+
+/-- velocity after the two half kicks and the friction/noise step -/
+def extV3 (p : ExtParams α) (s : ExtState α) (x fb rnd : α) : α :=
+  let n : α := (p.tsf : α)
+  let dt := p.dt * n
+  let fExt0 := fb / n
+  let fSystem := (-0.5 * p.k) * dist2SGrad p.per s.xExt x
+  let fExt := fExt0 + fSystem
+  let v1 := s.vExt + 0.5 * dt * fExt / p.mass
+  let v2 := v1 + 0.5 * dt * fExt / p.mass
+  if p.langevin then Prim.exp (-1.0 * dt * p.gamma) * v2 + p.sigma * rnd / p.mass else v2
+
+/-- position after the two half drifts, before reflection and wrapping -/
+def extX2 (p : ExtParams α) (s : ExtState α) (x fb rnd : α) : α :=
+  let n : α := (p.tsf : α)
+  let dt := p.dt * n
+  let fExt0 := fb / n
+  let fSystem := (-0.5 * p.k) * dist2SGrad p.per s.xExt x
+  let fExt := fExt0 + fSystem
+  let v1 := s.vExt + 0.5 * dt * fExt / p.mass
+  let v2 := v1 + 0.5 * dt * fExt / p.mass
+  let x1 := s.xExt + dt * v2 / 2.0
+  let v3 := if p.langevin then Prim.exp (-1.0 * dt * p.gamma) * v2 + p.sigma * rnd / p.mass else v2
+  x1 + dt * v3 / 2.0
+
+/-- the reflecting-boundary block -/
+def reflectS (lo up : Option α) (v0 x2 v3 : α) : α × α × Bool :=
+  let dl : Option α := lo.bind fun lb => if x2 - lb < 0.0 then some (x2 - lb) else none
+  let du : Option α := up.bind fun ub => if x2 - ub > 0.0 then some (x2 - ub) else none
+  let delta : Option α := match dl with | some d => some d | none => du
+  match delta with
+    | none => (x2, v3, false)
+    | some d =>
+      let xr := x2 - 2.0 * d
+      let vr := -0.5 * (v0 + v3)
+      let bad := (match lo with | some lb => decide (xr - lb < 0.0) | none => false) ||
+                 (match up with | some ub => decide (xr - ub > 0.0) | none => false)
+      (xr, vr, bad)
+
+theorem extIntegrate_reflect (p : ExtParams α) (s : ExtState α) (x fb fa rnd : α) :
+    (extIntegrate p s x fb fa rnd).xExt =
+      (match p.per with
+        | none => (reflectS p.reflLower p.reflUpper s.vExt (extX2 p s x fb rnd) (extV3 p s x fb rnd)).1
+        | some P => wrapS P p.wrapC
+            (reflectS p.reflLower p.reflUpper s.vExt (extX2 p s x fb rnd) (extV3 p s x fb rnd)).1) ∧
+    (extIntegrate p s x fb fa rnd).vExt =
+      (reflectS p.reflLower p.reflUpper s.vExt (extX2 p s x fb rnd) (extV3 p s x fb rnd)).2.1 ∧
+    (extIntegrate p s x fb fa rnd).err =
+      (s.err || (reflectS p.reflLower p.reflUpper s.vExt (extX2 p s x fb rnd) (extV3 p s x fb rnd)).2.2) :=
+  ⟨rfl, rfl, rfl⟩
+
+/-- the update reads only the coordinate, the velocity and the error flag of the state -/
+theorem extIntegrate_congr (p : ExtParams α) (s t : ExtState α) (x fb fa rnd : α)
+    (hx : t.xExt = s.xExt) (hv : t.vExt = s.vExt) :
+    extIntegrate p t x fb fa rnd =
+      { t with
+        prevX := s.xExt, prevV := s.vExt,
+        xExt := (extIntegrate p s x fb fa rnd).xExt, vExt := (extIntegrate p s x fb fa rnd).vExt,
+        ek := (extIntegrate p s x fb fa rnd).ek, ep := (extIntegrate p s x fb fa rnd).ep,
+        fr := (extIntegrate p s x fb fa rnd).fr, ftReported := (extIntegrate p s x fb fa rnd).ftReported,
+        fAtoms := (extIntegrate p s x fb fa rnd).fAtoms,
+        err := (t.err ||
+          (reflectS p.reflLower p.reflUpper s.vExt (extX2 p s x fb rnd) (extV3 p s x fb rnd)).2.2) } := by
+  cases s
+  cases t
+  simp only at hx hv
+  subst hx hv
+  rfl
+
+omit [Sc α] in
+/-- two states that agree up to the error flag and have the same error flag are equal -/
+theorem eq_of_err {a b : ExtState α} (h : a = { b with err := a.err }) (he : a.err = b.err) : a = b := by
+  rw [h, he]
+
+end generic
+
+local macro "fin_reflect" : tactic =>
+  `(tactic| (simp only [lit00, lit20] at *; first | linarith | exact ⟨by linarith, by linarith⟩))
+
+/-- if the block does not flag an error, its position is inside the boundaries -/
+theorem reflectS_inside (lo up : Option ℝ) (v0 x2 v3 : ℝ) (h : (reflectS lo up v0 x2 v3).2.2 = false) :
+    (∀ lb, lo = some lb → lb ≤ (reflectS lo up v0 x2 v3).1) ∧
+    (∀ ub, up = some ub → (reflectS lo up v0 x2 v3).1 ≤ ub) := by
+  unfold reflectS at h ⊢
+  rcases lo with _ | lb <;> rcases up with _ | ub <;>
+    simp only [Option.bind_none, Option.bind_some] at h ⊢
+  · simp
+  · by_cases hc : x2 - ub > 0.0
+    · simp [hc] at h ⊢
+      fin_reflect
+    · simp [hc] at h ⊢
+      fin_reflect
+  · by_cases hc : x2 - lb < 0.0
+    · simp [hc] at h ⊢
+      fin_reflect
+    · simp [hc] at h ⊢
+      fin_reflect
+  · by_cases hc : x2 - lb < 0.0
+    · simp [hc] at h ⊢
+      fin_reflect
+    · by_cases hd : x2 - ub > 0.0
+      · simp [hc, hd] at h ⊢
+        fin_reflect
+      · simp [hc, hd] at h ⊢
+        fin_reflect
+
+theorem reflectS_lower (lb v0 x2 v3 : ℝ) (h : x2 < lb) :
+    (reflectS (some lb) none v0 x2 v3).1 = 2 * lb - x2 ∧
+    (reflectS (some lb) none v0 x2 v3).2.1 = -0.5 * (v0 + v3) := by
+  have hc : x2 - lb < 0.0 := by rw [lit00]; linarith
+  unfold reflectS
+  simp only [Option.bind_some, hc, if_true]
+  refine ⟨?_, trivial⟩
+  rw [lit20]; ring
+
+/-- without friction and periodicity the two half kicks and half drifts combine -/
+theorem extV3_X2_nolangevin (p : ExtParams ℝ) (hl : p.langevin = false) (hper : p.per = none)
+    (s : ExtState ℝ) (x fb rnd : ℝ) :
+    extV3 p s x fb rnd =
+      s.vExt + p.dt * (p.tsf : ℝ) * (fb / (p.tsf : ℝ) + (-0.5 * p.k) * (2 * (s.xExt - x))) / p.mass ∧
+    extX2 p s x fb rnd =
+      s.xExt + p.dt * (p.tsf : ℝ) *
+        (s.vExt + p.dt * (p.tsf : ℝ) * (fb / (p.tsf : ℝ) + (-0.5 * p.k) * (2 * (s.xExt - x))) / p.mass) := by
+  unfold extV3 extX2
+  simp only [hl, hper, dist2SGrad_none, Bool.false_eq_true, if_false, lit05, lit20]
+  constructor <;> ring
+
+/-! ## `extPrepare` -/
+
+/-- an ordinary step: nothing but the restart flag changes -/
+theorem extPrepare_ordinary (p : ExtParams ℝ) (c : Clock) (s : ExtState ℝ) (x : ℝ)
+    (hset : s.set = true) (hnz : c.stepRelative ≠ 0 ∨ s.afterRestart = true)
+    (hnrep : c.stepRelative ≠ s.prevTimestep) :
+    extPrepare p c true s x = { s with afterRestart := false } := by
+  unfold extPrepare
+  have h1 : ((decide (c.stepRelative = 0) && !s.afterRestart) || !s.set || !true) = false := by
+    rcases hnz with h | h
+    · simp [h, hset]
+    · simp [h, hset]
+  simp only [h1, Bool.false_eq_true, if_false, Bool.true_and, decide_eq_true_eq, hnrep]
+
+/-- a repeated step without a jump of the variable -/
+theorem extPrepare_repeat (p : ExtParams ℝ) (c : Clock) (s : ExtState ℝ) (x : ℝ)
+    (hset : s.set = true) (hnz : c.stepRelative ≠ 0 ∨ s.afterRestart = true)
+    (hrep : c.stepRelative = s.prevTimestep)
+    (hjump : ¬ dist2S p.per x s.xOld / (p.width * p.width) > 0.25) :
+    extPrepare p c true s x = { s with xExt := s.prevX, vExt := s.prevV, afterRestart := false } := by
+  unfold extPrepare
+  have h1 : ((decide (c.stepRelative = 0) && !s.afterRestart) || !s.set || !true) = false := by
+    rcases hnz with h | h
+    · simp [h, hset]
+    · simp [h, hset]
+  simp only [h1, Bool.false_eq_true, if_false]
+  simp only [Bool.true_and, decide_eq_true_eq, hrep, if_true, hjump, if_false]
+
+/-- first step of a fresh run without reflecting boundaries -/
+theorem extPrepare_init (p : ExtParams ℝ) (c : Clock) (s : ExtState ℝ) (x : ℝ) (h0 : c.stepRelative = 0)
+    (hr : s.afterRestart = false) (hnrep : s.prevTimestep ≠ 0) (hlo : p.reflLower = none)
+    (hup : p.reflUpper = none) :
+    extPrepare p c true s x = { s with set := true, xExt := x, vExt := 0, afterRestart := false } := by
+  unfold extPrepare
+  have h1 : ((decide (c.stepRelative = 0) && !s.afterRestart) || !s.set || !true) = true := by
+    simp [h0, hr]
+  have h2 : (0 : Int) ≠ s.prevTimestep := fun h => hnrep h.symm
+  simp only [h1, if_true]
+  simp only [hlo, hup, Bool.true_and, decide_eq_true_eq, h0, h2, if_false, lit00]
 
 end Cv.C17
